@@ -397,6 +397,14 @@ def check(ctx):
         for lp in loops:
             from srclib import children
             inner_locals = set()
+            # a loop that only asks "is there a #[validate] at all" (sets a flag and stops) gathers nothing: stopping early loses nothing
+            gathers = any(y.get("k") == "mcall" and y["method"] in ("parse_nested_meta", "parse_args", "parse_args_with", "require_list") or
+                          (y.get("k") == "assign" and y["l"].get("k") == "field") or
+                          (y.get("k") == "mcall" and y["method"] in ("push", "insert", "extend"))
+                          for st_ in lp["body"] for e_ in stmt_exprs(st_) for y in walk(e_))
+            if not gathers:
+                r5.ok("a pre-scan loop over the attributes gathers nothing")
+                continue
 
             def collect_lets(stmts):
                 for st_ in stmts or []:
